@@ -426,7 +426,7 @@ func (r *runner) Op(t []string) string {
 func gen(r *h.Rand, tier string, emit func([]string)) {
 	ncases := 220
 	if tier == "thorough" {
-		ncases = 6000
+		ncases = 2000
 	}
 	p72 := strings.Repeat("Abcdefg1", 9)
 	pws := []string{"Password1", "Password2", "password", "PASSWORD1!", "Sh0rt!", "", "12345678", "Aa1!Aa1!", p72, p72 + "x", p72[:71], "Password1 "}
